@@ -52,13 +52,19 @@ impl Agc {
             min_gain,
             max_gain,
             locked: false,
-            gain: f32::min(1.0f32, min_gain),
+            gain: Self::initial_gain(min_gain, max_gain),
         }
+    }
+
+    // Unity gain, limited to the permitted range
+    #[inline]
+    fn initial_gain(min_gain: f32, max_gain: f32) -> f32 {
+        f32::max(min_gain, f32::min(1.0f32, max_gain))
     }
 
     /// Reset to zero initial conditions
     pub fn reset(&mut self) {
-        self.gain = 1.0f32;
+        self.gain = Self::initial_gain(self.min_gain, self.max_gain);
         self.locked = false;
     }
 
